@@ -69,6 +69,56 @@ From PV Require Import Yanny.Bytes Yanny.Types Yanny.Parse Yanny.Render C01.Floa
 UNSUPPORTED = ['u1', 'u2', 'u4', 'u8', 'i1', 'b1', 'f2', 'c8', 'c16', 'f16']
 
 
+LAYOUTS = ['aligned', 'offsets', 'wide_view', 'reordered_view', 'strided_view', 'reversed_view', 'bigendian', 'recarray']
+HDR_TYPED = [('int', 42), ('int', -7), ('int', 0), ('float', 2.5), ('float', -0.125), ('float', 1e+30), ('bool', True), ('bool', False),
+             ('npint', 2 ** 40), ('npint32', -5), ('npfloat', 0.1), ('npfloat32', 1.5), ('npbool', True), ('npstr', 'numpy text')]
+
+
+def typed_text(t, v):
+    """str() of the Python object the implementation side builds for a typed header value (harness/impl/c01_impl.hdr_value)"""
+    import numpy as np
+    return str({'int': int, 'float': float, 'bool': bool, 'npint': np.int64, 'npint32': np.int32, 'npfloat': np.float64,
+                'npfloat32': np.float32, 'npbool': np.bool_, 'npstr': np.str_}[t](v))
+
+
+def decorate(rng, job):
+    """Round 6 call-side variety; the document (what must be read back) stays what it is.
+    B/G: memory layout of the record arrays handed to the writer (job['layouts'], see c01_impl.relayout);
+    A:   the same array objects / header dictionary written once before with other content and edited in place ('reuse');
+    E:   header values that are Python / numpy numbers and booleans instead of str ('hdr_py': expected text = str(value)),
+         tables and names handed over as lists instead of tuples, overwrite=False / True given explicitly;
+    G:   overwrite=True onto a file that holds OTHER tables and pairs ('over'): nothing of the old file may survive."""
+    doc = job['doc']
+    if rng.random() < 0.45:
+        job['layouts'] = [rng.choice(LAYOUTS) if rng.random() < 0.8 else 'packed' for _ in doc['tables']]
+    if rng.random() < 0.15:
+        job['reuse'] = True
+    if job['entry'] == 'ndarray' and rng.random() < 0.3:
+        job['as_list'] = True
+    if doc.get('hdr') and rng.random() < 0.3:
+        job['hdr_py'] = {}
+        for kv in doc['hdr']:
+            if rng.random() < 0.6:
+                t, v = rng.choice(HDR_TYPED)
+                kv[1] = typed_text(t, v)
+                job['hdr_py'][kv[0]] = {'py': t, 'v': v}
+    if job['entry'] != 'ndarray':
+        t = rng.random()
+        if t < 0.3:
+            od = G.gen_doc(rng, 'ndarray', ntables=rng.choice([1, 2]), allow_u=False, max_rows=3)
+            if rng.random() < 0.5:          # the old file has a table of the SAME name with another layout
+                od['tables'][0]['name'] = rng.choice([doc['tables'][0]['name'], doc['tables'][0]['name'].upper(), doc['tables'][0]['name'].lower()])
+            names = set()
+            od['tables'] = [x for x in od['tables'] if not (x['name'].upper() in names or names.add(x['name'].upper()))]
+            od['hdr'] = [kv for kv in (od.get('hdr') or []) if kv[0].upper() not in names] + [['stale_keyword', 'left over']]
+            job['over'] = od
+            job['overwrite'] = True
+        elif t < 0.4:
+            job['overwrite'] = True         # nothing to replace
+        elif t < 0.5:
+            job['overwrite'] = False
+
+
 def gen_jobs(ctx):
     rng = ctx.rng
     jobs = []
@@ -77,8 +127,10 @@ def gen_jobs(ctx):
         t = rng.random()
         entry = 'ndarray' if t < 0.62 else ('table_func' if t < 0.81 else 'table_write')
         doc = G.gen_doc(rng, entry)
-        jobs.append({'kind': 'write', 'id': 'd%05d' % k, 'entry': entry, 'doc': doc, 'tag': 'in-domain',
-                     'single': bool(len(doc['tables']) == 1 and rng.random() < 0.5)})
+        job = {'kind': 'write', 'id': 'd%05d' % k, 'entry': entry, 'doc': doc, 'tag': 'in-domain',
+               'single': bool(len(doc['tables']) == 1 and rng.random() < 0.5)}
+        decorate(rng, job)
+        jobs.append(job)
     # fixed seam documents (always present, independent of the seed)
     fixed = [
         ('two tables, one name a prefix of the other',
@@ -115,8 +167,10 @@ def gen_jobs(ctx):
             t['name'] = 'MYSTRUCT%d' % i
         if doc.get('hdr'):
             doc['hdr'] = [kv for kv in doc['hdr'] if not kv[0].upper().startswith('MYSTRUCT')]
-        jobs.append({'kind': 'write', 'id': 'n%05d' % k, 'entry': 'ndarray', 'doc': doc, 'tag': 'in-domain', 'default_names': True,
-                     'single': bool(len(doc['tables']) == 1 and rng.random() < 0.5)})
+        job = {'kind': 'write', 'id': 'n%05d' % k, 'entry': 'ndarray', 'doc': doc, 'tag': 'in-domain', 'default_names': True,
+               'single': bool(len(doc['tables']) == 1 and rng.random() < 0.5)}
+        decorate(rng, job)
+        jobs.append(job)
     # round 5: entry-point glue (refusals, overwrite, read_table_yanny errors, unsupported types through the Table route)
     jobs.append({'kind': 'glue', 'id': 'glue', 'tag': 'glue', 'doc': None, 'entry': None})
     # round 5: the float fragment (NaN, infinities, signed integer-valued): numpy's text and float() of it
@@ -132,6 +186,12 @@ def gen_jobs(ctx):
             n = rng.randint(0, 1000) if t < 0.3 else (rng.randint(0, top) if t < 0.8 else 10 ** rng.randint(0, 15 if code == 'f8' else 5))
             vals.append([code, G.float_bits(float(-n if rng.random() < 0.5 else n), w)])
     jobs.append({'kind': 'floattext', 'id': 'ftext', 'tag': 'floattext', 'values': vals, 'doc': None, 'entry': None})
+    # round 6 (class D): one table beyond 2**15 rows (counter widths, block sizes), judged by the direct check alone
+    nbig = 33000 + rng.randint(0, 2000)
+    big = {'comments': ['big'], 'hdr': [['rows', str(nbig)]], 'enums': None, 'tables': [
+        {'name': 'BIG', 'cols': [{'name': 'n', 'code': 'i4', 'arr': None}, {'name': 'h', 'code': 'i2', 'arr': None}, {'name': 's', 'code': 'S4', 'arr': None}],
+         'rows': [[k * 65521 % 2000003 - 1000000, k % 65536 - 32768, 'r%d' % (k % 977)] for k in range(nbig)]}]}
+    jobs.append({'kind': 'write', 'id': 'big00', 'entry': 'ndarray', 'doc': big, 'tag': 'large', 'single': True})
     # out-of-domain stream: only refusal / documented exclusion is recorded, never equality
     ood = [('double-quote', 'a"b', 'cell'), ('leading-brace', '{ab', 'cell'), ('rbrace-in-array-element', 'a}b', 'elt'),
            ('backslash-ends-last-column', 'ab\\', 'last'), ('hash-in-header', 'a # b', 'hdr'),
@@ -150,7 +210,8 @@ def run_jobs(ctx, jobs, nb=12):
     nb = min(nb, max(1, len(jobs)))
     batches = [jobs[i::nb] for i in range(nb)]
     payloads = [{'workdir': os.path.join(ctx.work, 'files%d' % i),
-                 'jobs': [{k: v for k, v in j.items() if k in ('kind', 'id', 'entry', 'doc', 'single', 'text_hex', 'default_names', 'values')} for j in b]}
+                 'jobs': [{k: v for k, v in j.items() if k in ('kind', 'id', 'entry', 'doc', 'single', 'text_hex', 'default_names', 'values',
+                                                           'layouts', 'reuse', 'as_list', 'hdr_py', 'over', 'overwrite')} for j in b]}
                 for i, b in enumerate(batches)]
     outs = C.run_impl_parallel('c01_impl.py', payloads)
     results = [None] * len(jobs)
@@ -167,6 +228,11 @@ def py_outcome(doc, res, entry):
         return 'caller-data-modified', [res['caller_data_changed']]
     if res.get('bystander_changed'):
         return 'another-live-object-changed', [res['bystander_changed']]
+    if res.get('alias_changed'):
+        return 'returned-object-aliases-caller-arrays', [res['alias_changed']]
+    if 'exc' in (res.get('first_write') or {}):
+        fw = res['first_write']
+        return 'write-raised-%s' % fw['exc'], ['the first of two writes of the same arrays raised %s: %s (%s)' % (fw['exc'], fw['msg'], fw['where'])]
     if 'exc' in w:
         return 'write-raised-%s' % w['exc'], ['write raised %s: %s (%s); file %s' % (
             w['exc'], w['msg'], w['where'], 'left behind' if res.get('file_hex') is not None else 'not created')]
@@ -286,6 +352,8 @@ GLUE_EXPECT = {
     'read_noname': lambda o, ex: o['exc'] == ex,
     'read_unknown': lambda o, ex: o['exc'] == 'KeyError',
     'read_lowercase': lambda o, ex: o['exc'] is None,
+    # round 6 (class C): import and use in a fresh interpreter leave numpy / warnings / fits / environment settings alone
+    'process_globals': lambda o, ex: o.get('import') == [] and o.get('use') == [],
 }
 
 
@@ -313,6 +381,13 @@ def check_glue(ctx, jobs, results):
                            'check': name, 'observed': o,
                            'input': 'Table(np.zeros((1,), dtype=[("x","i4"),("q","%s")])) written with tablename U' % name.rsplit('_', 1)[-1] if unsup else name},
                           unsup)
+
+
+OPTION_KEYS = ('layouts', 'reuse', 'as_list', 'hdr_py', 'over', 'overwrite')
+
+
+def job_options(job):
+    return {k: job[k] for k in OPTION_KEYS if k in job}
 
 
 def shrink(ctx, job, outcome, deadline=None):
@@ -354,7 +429,7 @@ def shrink(ctx, job, outcome, deadline=None):
                         cands.append(d)
         if not cands:
             break
-        cj = [{'kind': 'write', 'id': 's%03d' % i, 'entry': entry, 'doc': d, 'tag': 'in-domain', 'single': False} for i, d in enumerate(cands)]
+        cj = [dict(job, kind='write', id='s%03d' % i, entry=entry, doc=d, tag='in-domain', single=False) for i, d in enumerate(cands)]
         rs, _ = run_jobs(ctx, cj, nb=8)
         nxt = None
         for d, r in zip(cands, rs):
@@ -397,6 +472,15 @@ def correspond(ctx, proof_ok=True):
         doc = job['doc']
         tag = job['tag']
         if tag in ('glue', 'floattext'):
+            continue
+        if tag == 'large':
+            out, det = py_outcome(doc, res, job['entry'])
+            ctx.coverage['large_table'] = {'rows': len(doc['tables'][0]['rows']), 'outcome': out}
+            if out != 'ok':
+                ctx.violation('C01:roundtrip-large:%s' % out, 'a table of %d rows does not read back unchanged (%s): %s'
+                              % (len(doc['tables'][0]['rows']), out, '; '.join(det)[:300]),
+                              {'kind': 'failing-input', 'entry': job['entry'], 'outcome': out, 'details': det[:5],
+                               'doc': dict(doc, tables=[dict(doc['tables'][0], rows='[[k * 65521 %% 2000003 - 1000000, k %% 65536 - 32768, "r%%d" %% (k %% 977)] for k in range(%d)]' % len(doc['tables'][0]['rows']))])}, True)
             continue
         if tag == 'out-of-domain':
             out, det = py_outcome(doc, res, job['entry'])
@@ -461,13 +545,24 @@ def correspond(ctx, proof_ok=True):
         sj = dict(job, doc=small)
         sr, _ = run_jobs(ctx, [sj], nb=1)
         out2, det2 = py_outcome(small, sr[0], job['entry'])
-        sig = 'C01:roundtrip:%s:%s' % (out2, '+'.join(G.features(small)) or 'plain')
+        opts = job_options(job)
+        callside = sorted(set((['layout=' + x for x in opts.get('layouts', []) if x != 'packed'][:1]) + [k for k in ('reuse', 'over') if k in opts]
+                              + (['overwrite=%s' % opts['overwrite']] if 'overwrite' in opts and 'over' not in opts else [])
+                              + (['typed-header-value'] if 'hdr_py' in opts else [])))
+        if callside:
+            # does the document fail without the call-side variety?  then the variety is not part of the signature
+            pj = {k: v for k, v in sj.items() if k not in OPTION_KEYS}
+            pr, _ = run_jobs(ctx, [pj], nb=1)
+            if py_outcome(small, pr[0], job['entry'])[0] == out2:
+                callside = []
+        sig = 'C01:roundtrip:%s:%s' % (out2, '+'.join(G.features(small) + callside) or 'plain')
         if sig in seen:
             continue
         seen.add(sig)
         ctx.violation(sig, 'written document does not read back unchanged (%s; %d generated documents fail this way): %s'
                       % (out2, len(lst), '; '.join(det2)[:300]),
-                      {'kind': 'failing-input', 'entry': job['entry'], 'doc': small, 'features': G.features(small),
+                      {'kind': 'failing-input', 'entry': job['entry'], 'doc': small, 'features': G.features(small), 'job_options': opts,
+                       'call_side_variety_needed': callside,
                        'outcome': out2, 'details': det2, 'file_text': bytes.fromhex(sr[0].get('file_hex') or '').decode('latin-1'),
                        'original_doc': doc, 'original_outcome': out, 'original_details': det, 'coq_verdict': v,
                        'documents_failing_this_way': len(lst),
@@ -483,6 +578,8 @@ def correspond(ctx, proof_ok=True):
                 'returned, and that = Render.sem(doc); distinct = distinct Coq case terms',
         'cases_by_entry_and_outcome': dist,
         'seam_features': feats,
+        'call_side_variety': {k: sum(1 for j in jobs if (k in j if '=' not in k else k.split('=')[1] in (j.get('layouts') or [])))
+                              for k in ['reuse', 'as_list', 'hdr_py', 'over', 'overwrite'] + ['layout=' + x for x in LAYOUTS]},
         'out_of_domain_outcomes': ood,
         'documents_failing': nviol,
         'documents_in_domain': nin,
@@ -496,7 +593,7 @@ def replay(ctx, rep):
     if not doc:
         print('replay file has no document (kind=%s, item=%s)' % (rep.get('kind'), rep.get('item')))
         return 2
-    job = {'kind': 'write', 'id': 'replay', 'entry': rep.get('entry', 'ndarray'), 'doc': doc, 'tag': 'in-domain', 'single': False}
+    job = dict(rep.get('job_options') or {}, kind='write', id='replay', entry=rep.get('entry', 'ndarray'), doc=doc, tag='in-domain', single=False)
     rs, pf = run_jobs(ctx, [job], nb=1)
     out, det = py_outcome(doc, rs[0], job['entry'])
     print('pydl   :', pf)
